@@ -300,8 +300,10 @@ def check(prop, tier, seed):
         level = 'other'
     ev = dict(property_id=prop, tier=tier, seed=seed, level=level, coverage=coverage,
               assumptions=trusted + meta.get('assumptions', []), wall_s=round(wall, 2), violations=len(vseen))
-    os.makedirs(os.path.join(ROOT, 'evidence'), exist_ok=True)
-    json.dump(ev, open(os.path.join(ROOT, 'evidence', prop + '.json'), 'w'), indent=1, default=str)
+    # runs against a scratch copy (sensitivity self-test, seeded changes) must not overwrite the evidence of the real tree
+    evdir = os.path.join(ROOT, 'evidence', '.scratch') if os.environ.get('PYG_REPO') else os.path.join(ROOT, 'evidence')
+    os.makedirs(evdir, exist_ok=True)
+    json.dump(ev, open(os.path.join(evdir, prop + '.json'), 'w'), indent=1, default=str)
     for l in lines:
         print(l)
     print('%s tier=%s obligations=%d discharged=%d bounded_evaluations=%s wall=%.1fs' % (
